@@ -430,3 +430,39 @@ Example C02_signal_nonvacuous :
   accept_sig 2 [SX (0, 0, 0); SS (0, 0, 0); SQ (0, 0, 0); SQ (0, 0, 0)] = false /\
   prop_sig_b 2 [SX (0, 0, 0); SS (0, 0, 0)] = false.
 Proof. vm_compute. repeat split; reflexivity. Qed.
+
+(* ---- two pipeline objects in one process (harness mode "twopipes") --------------------------------------------------
+   The counters of distinct pipeline objects are independent: in the product model (a pair of acceptor states, an event
+   moves only the component of its own pipeline) whatever pipeline B does, pipeline A's state after the run is the one
+   its OWN events alone produce; the product acceptor is the conjunction of the single-pipeline acceptors on the two
+   projections (this is what checks/c02.py runs through the extracted driver: accept_conc / prop_c02_b per pipeline), so
+   an accepted run numbers the deliveries of EACH pipeline 0,1,2,... in that pipeline's delivery order. *)
+Theorem C02_two_pipelines_independent : forall qa na qb nb tr a b a' b',
+  arun2 qa na qb nb (a, b) tr = Some (a', b') ->
+  arun qa na a (proj_pipe PA tr) = Some a' /\ arun qb nb b (proj_pipe PB tr) = Some b'.
+Proof. exact (fun qa na qb nb tr a b a' b' H => conj (two_pipes_component_A qa na qb nb tr a b a' b' H)
+                                                      (two_pipes_component_B qa na qb nb tr a b a' b' H)). Qed.
+Print Assumptions C02_two_pipelines_independent.
+
+Theorem C02_two_pipelines_acceptor_splits : forall qa na qb nb tr,
+  accept_two qa na qb nb tr = andb (accept_conc qa na (proj_pipe PA tr)) (accept_conc qb nb (proj_pipe PB tr)).
+Proof. exact accept_two_split. Qed.
+Print Assumptions C02_two_pipelines_acceptor_splits.
+
+Theorem C02_two_pipelines_each_consecutive : forall qa na qb nb tr, accept_two qa na qb nb tr = true ->
+  prop_c02_b qa na (proj_pipe PA tr) = true /\ prop_c02_b qb nb (proj_pipe PB tr) = true.
+Proof. exact accept_two_implies_oracles. Qed.
+Print Assumptions C02_two_pipelines_each_consecutive.
+
+(* non-vacuity: A and B interleave, their runs even overlap in time (B enters while A is inside), each numbers 0,1; accepted.
+   The same schedule with ONE counter shared by both pipelines (A gets 0 and 2, B gets 1 and 3) is rejected, and so is
+   each pipeline's own trace by the boolean oracle. *)
+Example C02_two_pipelines_nonvacuous :
+  let q := fun _ : nat => 2 in
+  accept_two q 1 q 1 [(PA, EEnter 0 0); (PB, EEnter 0 0); (PA, EDeliver 0 0 0); (PB, EDeliver 0 0 0);
+                      (PA, EEnter 0 1); (PA, EDeliver 0 1 1); (PB, EEnter 0 1); (PB, EDeliver 0 1 1)] = true /\
+  accept_two q 1 q 1 [(PA, EEnter 0 0); (PA, EDeliver 0 0 0); (PB, EEnter 0 0); (PB, EDeliver 0 0 1);
+                      (PA, EEnter 0 1); (PA, EDeliver 0 1 2); (PB, EEnter 0 1); (PB, EDeliver 0 1 3)] = false /\
+  prop_c02_b q 1 (proj_pipe PA [(PA, EEnter 0 0); (PA, EDeliver 0 0 0); (PB, EEnter 0 0); (PB, EDeliver 0 0 1);
+                                (PA, EEnter 0 1); (PA, EDeliver 0 1 2); (PB, EEnter 0 1); (PB, EDeliver 0 1 3)]) = false.
+Proof. vm_compute. repeat split; reflexivity. Qed.
